@@ -19,6 +19,8 @@
 // bits, +-0 -> 0, NaN -> nan) except where bit patterns are stated.
 #include <primitiv/primitiv.h>
 #include <primitiv/core/initializer_impl.h>
+#include <primitiv/c/devices/naive/device.h>
+#include <primitiv/c/devices/eigen/device.h>
 #include <algorithm>
 #include <cmath>
 #include <cstring>
@@ -43,9 +45,17 @@ static std::string ords(const std::vector<float> &v) {
 static std::string bitss(const std::vector<float> &v) {
   std::string o; for (size_t i = 0; i < v.size(); ++i) { if (i) o += ','; o += bstr(v[i]); } return v.empty() ? "-" : o;
 }
-static std::unique_ptr<Device> mkdev(const std::string &d, std::uint32_t seed) {
-  if (d == "N") return std::unique_ptr<Device>(new devices::Naive(seed));
-  if (d == "E") return std::unique_ptr<Device>(new devices::Eigen(seed));
+// device specs: N / E = C++ constructors devices::Naive(seed) / devices::Eigen(seed);
+// NC / EC = C API constructors primitivCreate{Naive,Eigen}DeviceWithSeed
+static std::shared_ptr<Device> mkdev(const std::string &d, std::uint32_t seed) {
+  if (d == "N") return std::shared_ptr<Device>(new devices::Naive(seed));
+  if (d == "E") return std::shared_ptr<Device>(new devices::Eigen(seed));
+  if (d == "NC" || d == "EC") {
+    primitivDevice_t *p = nullptr;
+    PRIMITIV_C_STATUS st = d == "NC" ? primitivCreateNaiveDeviceWithSeed(seed, &p) : primitivCreateEigenDeviceWithSeed(seed, &p);
+    if (st != PRIMITIV_C_OK || !p) throw std::runtime_error("C API device creation failed");
+    return std::shared_ptr<Device>(reinterpret_cast<Device *>(p), [](Device *q) { primitivDeleteDevice(reinterpret_cast<primitivDevice_t *>(q)); });
+  }
   throw std::runtime_error("bad device");
 }
 static Shape sh(const std::string &s) {
@@ -63,7 +73,7 @@ static Req parse_req(std::string s) {
   auto t = split(s, ':');
   r.kind = t.at(0).at(0);
   if (r.kind == 'b') { r.a = f_of(t.at(1)); r.b = 0; r.n = u32(t.at(2)); }
-  else { r.a = f_of(t.at(1)); r.b = f_of(t.at(2)); r.n = u32(t.at(3)); }
+  else { r.a = f_of(t.at(1)); r.b = f_of(t.at(2)); r.n = u32(t.at(3)); }  // u, n, l, g (gumbel: mu, beta)
   return r;
 }
 static std::vector<float> do_req(Device &dev, char api, const Req &r) {
@@ -74,6 +84,7 @@ static std::vector<float> do_req(Device &dev, char api, const Req &r) {
       case 'u': return F::random::uniform<Tensor>(s, r.a, r.b, &dev).to_vector();
       case 'n': return F::random::normal<Tensor>(s, r.a, r.b, &dev).to_vector();
       case 'l': return F::random::log_normal<Tensor>(s, r.a, r.b, dev).to_vector();
+      case 'g': return F::random::gumbel<Tensor>(s, r.a, r.b, &dev).to_vector();
     }
   } else if (api == 'D') {   // the Device front end directly
     switch (r.kind) {
@@ -81,6 +92,7 @@ static std::vector<float> do_req(Device &dev, char api, const Req &r) {
       case 'u': return dev.random_uniform(s, r.a, r.b).to_vector();
       case 'n': return dev.random_normal(s, r.a, r.b).to_vector();
       case 'l': return dev.random_log_normal(s, r.a, r.b).to_vector();
+      case 'g': return F::random::gumbel<Tensor>(s, r.a, r.b, &dev).to_vector();
     }
   } else {
     Graph g; Graph::set_default(g);
@@ -89,6 +101,7 @@ static std::vector<float> do_req(Device &dev, char api, const Req &r) {
       case 'u': return F::random::uniform<Node>(s, r.a, r.b, &dev).to_vector();
       case 'n': return F::random::normal<Node>(s, r.a, r.b, &dev).to_vector();
       case 'l': return F::random::log_normal<Node>(s, r.a, r.b, dev).to_vector();
+      case 'g': return F::random::gumbel<Node>(s, r.a, r.b, &dev).to_vector();
     }
   }
   throw std::runtime_error("bad request kind");
@@ -250,19 +263,32 @@ static std::string do_range(const std::vector<std::string> &t) {
   return "ok n=" + std::to_string(v.size()) + " ones=" + std::to_string(n1) + " at_upper=" + std::to_string(nup);
 }
 
-// replay <devA> <devB> <seedA> <seedB> <reqs>: two devices, interleaved requests; equal = all replies bit-identical
+static std::string num(double x);
+// replay <devA> <devB> <seedA> <seedB> <reqs> [<pad>]: two devices, same request sequence; equal = all
+// replies bit-identical.  <pad> small heap blocks are allocated (and kept) between the two runs,
+// so that the result buffers of the second device get a different malloc alignment.
 static std::string do_replay(const std::vector<std::string> &t) {
   auto a = mkdev(t.at(1), u32(t.at(3))), b = mkdev(t.at(2), u32(t.at(4)));
   auto rs = split(t.at(5), ';');
-  bool all_eq = true; size_t vals = 0;
+  const unsigned pad = t.size() > 6 ? u32(t[6]) : 0;
+  size_t vals = 0;
   // device a serves the whole sequence first with API T, then b with alternating APIs: the
   // outputs may depend on the seed and the request sequence only
-  std::vector<std::string> oa, ob;
-  for (auto &q : rs) { Req r = parse_req(q); try { auto v = do_req(*a, 'T', r); vals += v.size(); oa.push_back(bitss(v)); } catch (Error &) { oa.push_back("rej"); } }
+  std::vector<std::vector<float>> oa, ob; std::vector<bool> ra, rb;
+  for (auto &q : rs) { Req r = parse_req(q); try { auto v = do_req(*a, 'T', r); vals += v.size(); oa.push_back(v); ra.push_back(false); } catch (Error &) { oa.push_back({}); ra.push_back(true); } }
+  std::vector<void *> pads; for (unsigned i = 0; i < pad; ++i) pads.push_back(std::malloc(24));
   size_t i = 0;
-  for (auto &q : rs) { Req r = parse_req(q); try { ob.push_back(bitss(do_req(*b, "TND"[i++ % 3], r))); } catch (Error &) { ob.push_back("rej"); } }
-  for (size_t k = 0; k < rs.size(); ++k) if (oa[k] != ob[k]) all_eq = false;
-  return std::string(all_eq ? "equal" : "differ") + " values=" + std::to_string(vals);
+  for (auto &q : rs) { Req r = parse_req(q); try { ob.push_back(do_req(*b, "TND"[i++ % 3], r)); rb.push_back(false); } catch (Error &) { ob.push_back({}); rb.push_back(true); } }
+  for (void *q : pads) std::free(q);
+  std::string diff; size_t ndiff = 0; long long maxulp = 0; double maxabs = 0;
+  for (size_t k = 0; k < rs.size(); ++k) {
+    if (ra[k] != rb[k] || oa[k].size() != ob[k].size()) { if (diff.empty()) diff = " first=req" + std::to_string(k) + ":reject-or-size"; ++ndiff; continue; }
+    for (size_t j = 0; j < oa[k].size(); ++j) if (bstr(oa[k][j]) != bstr(ob[k][j])) {
+      if (!ndiff++) diff = " first=req" + std::to_string(k) + "[" + std::to_string(j) + "]:" + bstr(oa[k][j]) + "/" + bstr(ob[k][j]);
+      if (oa[k][j] == oa[k][j] && ob[k][j] == ob[k][j]) { long long d = std::llabs(std::stoll(ord(oa[k][j])) - std::stoll(ord(ob[k][j]))); maxulp = std::max(maxulp, d); maxabs = std::max(maxabs, std::fabs(double(oa[k][j]) - double(ob[k][j]))); } else maxabs = 1e300;
+    }
+  }
+  return std::string(ndiff ? "differ" : "equal") + " values=" + std::to_string(vals) + " ndiff=" + std::to_string(ndiff) + " maxulp=" + std::to_string(maxulp) + " maxabs=" + num(maxabs) + diff;
 }
 
 // stat <dev> <seed> <what> <a> <b> <n>: prints the statistics; thresholds are applied by engines/c17.py
